@@ -72,7 +72,7 @@ fn signature(s: &Snap, info: &StepInfo) -> String {
         "soc-free"
     };
     let lim = if info.m >= s.ed_rating { "edrv-binds" } else { "upstream-binds" };
-    format!("{}:{}:{}:{}:eng={:?}:dt={}", if s.is_conv { "conv" } else { "bel" }, dir, bound, lim, info.engine_on, info.dt)
+    format!("{}:{}:{}:{}:eng={:?}:dt={}", if s.is_hyb { "hyb" } else if s.is_conv { "conv" } else { "bel" }, dir, bound, lim, info.engine_on, info.dt)
 }
 
 impl PtProp {
@@ -106,7 +106,7 @@ impl PtProp {
                 ctx.depth(path.len() as u64);
                 if info.panicked {
                     let case = LocoCase { cfg: *cfg, path: path.iter().map(|&i| letters[i]).collect() };
-                    ctx.violation(&format!("panic@step:{}", if parent.snap.is_conv { "conv" } else { "bel" }), format!("panic: {}", info.err), serde_json::to_value(&case).unwrap(), path.len() as u64);
+                    ctx.violation(&format!("panic@step:{}", if parent.snap.is_hyb { "hyb" } else if parent.snap.is_conv { "conv" } else { "bel" }), format!("panic: {}", info.err), serde_json::to_value(&case).unwrap(), path.len() as u64);
                     return None;
                 }
                 if !info.accepted {
@@ -173,7 +173,7 @@ impl Prop for PtProp {
         let (d, l, k) = self.bounds(tier);
         let consist_part = if self.which == "C01" || self.which == "C09" { format!(" PLUS consists: {}", super::consist_lab::rule(self.which, tier)) } else { String::new() };
         format!(
-            "E-SEQ on real Locomotive objects driven like LocomotiveSimulation::solve_step: alphabet = {} letters (14 demands relative to the limits just published: {:?}; dt in {:?} (20 s for C01 only){}), every sequence of length <= {} (FULL), every sequence of length {} departing from the default letter (0.6M, dt=1, engine on) in <= 1 position (DEV(L,1)) on every powertrain configuration of the {} PT family (conventional + battery-electric), and every sequence of length {} with <= 2 departures (DEV(L,2)) on the star-design configurations. Oracle on every accepted step (= every prefix of every history). distinct_nontrivial = number of distinct behaviour signatures (unit type x traction/regen/dyn-brake/zero x which transient bound is active x which limit binds x engine command x dt, and rejected-letter x error kind).{}",
+            "E-SEQ on real Locomotive objects driven like LocomotiveSimulation::solve_step: alphabet = {} letters (14 demands relative to the limits just published: {:?}; dt in {:?} (20 s for C01 only){}), every sequence of length <= {} (FULL), every sequence of length {} departing from the default letter (0.6M, dt=1, engine on) in <= 1 position (DEV(L,1)) on every powertrain configuration of the {} PT family (conventional + battery-electric; C08 also hybrid units), and every sequence of length {} with <= 2 departures (DEV(L,2)) on the star-design configurations. Oracle on every accepted step (= every prefix of every history). distinct_nontrivial = number of distinct behaviour signatures (unit type x traction/regen/dyn-brake/zero x which transient bound is active x which limit binds x engine command x dt, and rejected-letter x error kind).{}",
             letters_for(self.which).len(),
             DEMANDS,
             DTS,
@@ -206,6 +206,10 @@ impl Prop for PtProp {
         cfgs.extend(bel_configs(ctx.tier.is_thorough()));
         let mut star_cfgs = conv_configs(false);
         star_cfgs.extend(bel_configs(false));
+        if self.which == "C08" {
+            // "every simulation ... each component": the shipped hybrid type as well
+            cfgs.extend(hyb_configs(ctx.tier.is_thorough()));
+        }
         // the star-design configurations are always part of the run
         for c in &star_cfgs {
             if !cfgs.contains(c) {
@@ -245,7 +249,7 @@ impl Prop for PtProp {
         let mut checks = 0;
         for (info, p, s) in &steps {
             if info.panicked {
-                v.push((format!("panic@step:{}", if p.is_conv { "conv" } else { "bel" }), info.err.clone()));
+                v.push((format!("panic@step:{}", if p.is_hyb { "hyb" } else if p.is_conv { "conv" } else { "bel" }), info.err.clone()));
             } else if info.accepted {
                 v.extend(oracle(self.which, p, s, info, &mut checks));
             }
